@@ -213,3 +213,133 @@ class classifier_run:
         "labels_from_projections": "self._kmeans.calls[0][0] == 'fit_predict' and self._kmeans.calls[0][1] is called('get_transform') "
                                    "and self._labels is self._kmeans.calls[0][2] and self._labels.shape[0] == self._n_image",
     }
+
+
+# ---------------------------------------------------------------------------
+# classification through a loader: what is handed to the classifier, and where its labels go
+from contracts.common import TLoader, TMolecules, NATIVE_IMPORTS
+from contracts.C11_poses import M as _Mrow, mateq as _mateq
+
+from pyvc import arrays as A
+_MD = "acryo.alignment._base:TomographyInput.masked_difference"
+
+
+@contract(_MD, props=["C18"])
+class masked_difference:
+    """wedge-masked difference map of one sub-volume (numerics trusted; exposes its arguments to callers)"""
+    trusted = True
+    params = dict(self=T.Obj("acryo.alignment._concrete:ZNCCAlignment", {}))
+    result = lambda interp, bound: fresh_array("difference_map", 3, "real", shape=tuple(A.from_nested(bound["image"]).shape))
+    ensures = {}
+
+
+def _hook_model_init(interp, f, args, kwargs):
+    """stand-in for the alignment model's constructor while `classify` is verified: remember what it was built from"""
+    me = args[0]
+    names = ["template", "mask", "rotations", "cutoff", "tilt", "tilt_range"]
+    got = dict(zip(names, args[1:]))
+    got.update(kwargs)
+    mask = got.get("mask")
+    me.attrs.update(_template=got.get("template"), _mask=1 if mask is None else mask, _ndim=3, _n_templates=1,
+                    _n_rotations=1, _cutoff=got.get("cutoff"), _ghost_ctor=got)
+    return None
+
+
+def _hook_clf_init(interp, f, args, kwargs):
+    me = args[0]
+    names = ["image_stack", "mask_image", "n_components", "n_clusters", "seed"]
+    got = dict(zip(names, args[1:]))
+    got.update(kwargs)
+    st = A.from_nested(got["image_stack"])
+    me.attrs.update(_image=st, _mask=got.get("mask_image"), _n_image=st.shape[0], _shape=tuple(st.shape[1:]),
+                    n_components=got.get("n_components", 2), n_clusters=got.get("n_clusters", 2),
+                    _ghost_seed=got.get("seed", 0), _labels=None)
+    return None
+
+
+def _hook_clf_run(interp, f, args, kwargs):
+    me = args[0]
+    me.attrs["_labels"] = fresh_array("kmeans_labels", 1, "int", shape=(me.attrs["_n_image"],))
+    return me
+
+
+def _setup_classify(interp):
+    interp.call_hooks["acryo.alignment._base:TomographyInput.__init__"] = _hook_model_init
+    interp.call_hooks["acryo.classification.pca:PcaClassifier.__init__"] = _hook_clf_init
+    interp.call_hooks["acryo.classification.pca:PcaClassifier.run"] = _hook_clf_run
+
+
+_REPLAY_CLASSIFY = '''
+import numpy as np
+from acryo import SubtomogramLoader, Molecules
+rng = np.random.default_rng(1234)
+S = 7; shape = (S, S, S)
+m0 = np.zeros(shape, np.float32); m0[1:3, 1:3, 1:3] = 5.0
+m1 = np.zeros(shape, np.float32); m1[4:6, 4:6, 1:3] = 5.0
+m2 = np.zeros(shape, np.float32); m2[1:3, 4:6, 4:6] = 5.0
+motifs = [m0, m1, m2]
+kinds = np.array([0, 1, 2, 2, 1, 0, 0, 2, 1, 1, 0, 2, 0, 1, 2])
+n = len(kinds)
+tomo = rng.normal(0, 0.05, size=(12, 12, 12 * n)).astype(np.float32)
+pos = []
+for i, k in enumerate(kinds):
+    c = (6, 6, 12 * i + 6)
+    tomo[c[0] - 3:c[0] + 4, c[1] - 3:c[1] + 4, c[2] - 3:c[2] + 4] += motifs[k]
+    pos.append(c)
+mole = Molecules(np.array(pos, dtype=np.float32), features={"kind": kinds})
+loader = SubtomogramLoader(tomo, mole, order=0, scale=1.0, output_shape=shape)
+ok = True
+for ncomp, nclus in ((2, 3), (3, 2), (2, 2)):
+    res = loader.classify(n_components=ncomp, n_clusters=nclus, seed=0, label_name="cls")
+    clf, out = res.classifier, res.loader.molecules
+    labels = out.features["cls"].to_numpy()
+    good = clf.n_components == ncomp and clf.n_clusters == nclus and clf.kmeans.n_clusters == nclus \\
+        and clf.pca.components_.shape[0] == ncomp and np.array_equal(labels, clf.labels) and len(labels) == n \\
+        and np.array_equal(out.pos, mole.pos) and list(out.features["kind"]) == list(kinds) \\
+        and "cls" not in loader.molecules.features.columns
+    if nclus == 3:
+        pairs = {(int(k), int(l)) for k, l in zip(kinds, labels)}
+        good = good and len(pairs) == 3 and len({l for _, l in pairs}) == 3
+    print("n_components=%d n_clusters=%d: classifier built with (%d, %d); labels %s" % (ncomp, nclus, clf.n_components, clf.kmeans.n_clusters, labels.tolist()), "ok" if good else "WRONG")
+    ok = ok and good
+print("clause holds natively (requested parameters used; one label per molecule in order; nothing else changed):", ok)
+print("CONFIRMED" if not ok else "NOT-CONFIRMED"); sys.exit(1 if not ok else 0)
+'''
+
+_NC = "self._molecules._pos.shape[0]"
+
+
+@contract("acryo.loader._base:LoaderBase.classify", props=["C18", "C03"])
+class loader_classify:
+    """the classifier is built from the stack whose row i is the wedge-masked difference of sub-volume i (molecule i's
+    orientation), with the model's mask and the requested n_components / n_clusters / seed; its i-th label becomes the
+    label of molecule i in a new loader; positions, orientations and the other features are unchanged and the loader
+    classify was called on is not modified.  (PCA / k-means themselves: the contracts above; the alignment model's
+    constructor, masked_difference, PcaClassifier.__init__ and run are replaced by their summaries here.)"""
+    params = dict(self=TLoader(TMolecules(features=["f0"], min_n=1), order=1), template=T.Arr(3, "real"),
+                  mask=T.OneOf(None, T.Arr(3, "real")), cutoff=T.Real(), n_components=T.Int(lo=1), n_clusters=T.Int(lo=1),
+                  tilt=T.Const(None), tilt_range=T.Const(None), seed=T.Int(lo=0), label_name=T.Const("cluster"))
+    requires = ["mask is None or all(mask.shape[a] == template.shape[a] for a in range(3))"]
+    helpers = dict(MD="TomographyInput.masked_difference", M=_Mrow, mateq=_mateq, qrow=lambda rot, i, c: rot.as_quat()[i, c])
+    setup = staticmethod(_setup_classify)
+    replay = staticmethod(lambda ob, meta, model: _REPLAY_CLASSIFY)
+    may_raise = {"SubvolumeOutOfBoundError": "True"}
+    ensures = {
+        "requested_parameters": "result.classifier.n_components == n_components and result.classifier.n_clusters == n_clusters "
+                                "and result.classifier._ghost_seed == seed",
+        "mask_of_the_model": "(mask is None and result.classifier._mask == 1) or result.classifier._mask is mask",
+        "stack_row_i_is_molecule_i":
+            f"result.classifier._n_image == {_NC} and "
+            f"forall(lambda i: arr_eq(called_args_at(MD, i)['image'], called('construct_loading_tasks')._arrays[i]) and "
+            f"all(called_args_at(MD, i)['quaternion'][c] == qrow(self._molecules._rotator, i, c) for c in range(4)), (0, {_NC})) and "
+            f"forall(lambda i, z, y, x: result.classifier._image[i, z, y, x] == called_at(MD, i)[z, y, x], "
+            f"(0, {_NC}), (0, template.shape[0]), (0, template.shape[1]), (0, template.shape[2]))",
+        "label_i_goes_to_molecule_i":
+            f"result.loader._molecules._pos.shape[0] == {_NC} and "
+            f"forall(lambda i: result.loader._molecules._features['cluster'].arr[i] == result.classifier._labels[i], (0, {_NC}))",
+        "nothing_else_changes":
+            f"forall(lambda i: all(result.loader._molecules._pos[i, a] == self._molecules._pos[i, a] for a in range(3)) and "
+            f"mateq(M(result.loader._molecules._rotator, i), M(self._molecules._rotator, i)) and "
+            f"result.loader._molecules._features['f0'].arr[i] == self._molecules._features['f0'].arr[i], (0, {_NC}))",
+        "frame": "writes_to(self) == 0 and writes_to(self._molecules) == 0 and result.loader is not self",
+    }
